@@ -25,7 +25,8 @@ CLAIMED = {}
 CLAIMED["C20"] = dict(
     engine="oom", level="fault_enumeration", design_ref="DESIGN.md section 3, C20",
     technique="deterministic simulation with fault injection: simulated heap behind a link-time seam, every allocation request of each seeded scenario made to fail in turn, process fate classified",
-    text="For each seeded scenario program (every operation of the table, 3-4 build variants, cold and warm caches, small and shipped cache knobs) "
+    text="For each seeded scenario program (every operation of the table incl. >64 simultaneously live headers, operands that are views, 4 build variants, cold and warm caches, small and shipped cache knobs; "
+         "plus the OpenMP builds running mul_mp/addmul_mp/M4RM/M4RI on the simulated runtime with a team of 3) "
          "every single allocation request i = 0..N-1 is made to fail in its own forked execution under ASan/UBSan; the only admissible fate is abort "
          "reached from library code with a diagnostic on stderr. Exhaustive over fault positions per scenario, sampling over scenarios.",
     note="Trusts: the heap seam sees every allocation of library objects (objcopy symbol redirection of malloc/calloc/realloc/posix_memalign/free); "
@@ -66,13 +67,13 @@ CLAIMED["C11"] = dict(
     text="Decided on the seams: (1) after every world of the hist engine - prefix calls, probe call, everything returned freed, block cache cleaned - the set of live library allocations must equal the set before, "
          "and in builds with the header cache a black-box probe checks that the static pool has all 64 slots free; frees of unknown or already freed pointers are recorded by the ledger; "
          "(2) for each of the 21 checked public wrappers, calls with one dimension perturbed are executed in a forked child: the only admissible fate is m4ri_die with a diagnostic and every operand bit unchanged at the moment of death; "
-         "(3) the same workloads run with 16-byte aligned plain malloc (no-SSE2 variant) and 64-byte aligned blocks. The input-universal clause (no out-of-bounds/UB for every valid input) is only sampled by these workloads under ASan+UBSan.",
+         "(3) the same workloads run with 16-byte aligned plain malloc (no-SSE2 variant), 64-byte aligned blocks, and window operands whose rows are 8 mod 16; (4) the write-side fault plane of the fs engine (temporaries released on I/O error paths). The input-universal clause (no out-of-bounds/UB for every valid input) is only sampled by these workloads under ASan+UBSan.",
     note="Sanitizers are trusted to report what they can see; UB they cannot see and shapes the generators never reach are outside. Leaks of libpng/zlib are outside the ledger.")
 
 CLAIMED["C16"] = dict(
     engine="omp", level="exploration", design_ref="DESIGN.md section 3, C16",
     technique="deterministic simulation: the real -fopenmp build of the library runs on a simulated OpenMP runtime (own GOMP_*/omp_* entry points) with a seeded scheduler over cooperative tasks preempting between individual memory accesses, and a vector-clock happens-before access monitor fed by the compiler's -fsanitize=thread callbacks",
-    text="Workloads: mzd_(add)mul_mp (C given and NULL), mzd_(add)mul, squaring, M4RM products, M4RI elimination/top-reduction/inversion, PLE/PLUQ, solve, kernel, with shapes around 128j +- {0,1,63,64,65}, >512-row operands for the static-chunk loops, "
+    text="Workloads (SSE2 and no-SSE2 OpenMP builds; a quarter of the operands are views into larger matrices): mzd_(add)mul_mp (C given and NULL), mzd_(add)mul, squaring, M4RM products, M4RI elimination/top-reduction/inversion, PLE/PLUQ, solve, kernel, with shapes around 128j +- {0,1,63,64,65}, >512-row operands for the static-chunk loops, "
          "cutoffs 64/128/192/0. Per run: sequential reference (same entry point of the sequential build; for the _mp front ends the same code with the runtime disabled AND the sequential mzd_(add)mul), "
          "a team of n in 1..16 without preemption, and one seeded schedule (random-walk or PCT-style preemption; team size per region, nested teams and who grabs which section are scheduler choices). "
          "Oracles: bit-identical outcome, no conflicting unordered accesses (HB from fork/join and critical sections only), every region joins within 20x the unpreempted event count, allocations balanced. "
